@@ -118,47 +118,3 @@ def implies(fr: Frag, atom: str, value: bool) -> bool:
 def macro_frags(ti: Any, macro: str) -> list[Frag]:
     m = ti.macros.get(macro)
     return list(frags(m.body)) if m is not None else []
-
-
-def flatten_extends(jx: Any, ti: Any, depth: int = 4, _over: "dict[str, Any] | None" = None) -> list[nodes.Node]:
-    """the body a template renders: its own body when it does not extend another one (and has no blocks); otherwise the top-level
-    statements of the child that bind something (`set`, imports, macros - a child's output outside blocks is not rendered),
-    followed by the parent's body (itself flattened) in which every `{% block %}` is replaced by a Scope holding the innermost
-    override of that block (the child's, else the parent's own content).  `super()` inside an override is not resolved.  The
-    nodes of the trees are shared, not copied, except for the containers that had to be rebuilt around a substituted block."""
-    import copy
-
-    over: dict[str, Any] = dict(_over or {})
-
-    def subst(body: list[nodes.Node]) -> list[nodes.Node]:
-        out: list[nodes.Node] = []
-        for n in body:
-            if isinstance(n, nodes.Block):
-                src = over.get(n.name, n)
-                out.append(nodes.Scope(subst(list(src.body)), lineno=src.lineno))
-                continue
-            if isinstance(n, nodes.Macro) or not any(True for _ in n.find_all(nodes.Block)):
-                out.append(n)
-                continue
-            m = copy.copy(n)
-            for fld in ("body", "else_"):
-                sub = getattr(m, fld, None)
-                if isinstance(sub, list):
-                    setattr(m, fld, subst(sub))
-            if isinstance(m, nodes.If):
-                m.elif_ = []
-                for el in n.elif_:
-                    e2 = copy.copy(el)
-                    e2.body = subst(list(el.body))
-                    m.elif_.append(e2)
-            out.append(m)
-        return out
-
-    ext = [n for n in ti.tree.body if isinstance(n, nodes.Extends)]
-    parent = jx.templates.get(ext[0].template.value) if ext and isinstance(ext[0].template, nodes.Const) else None
-    if parent is None or depth <= 0:
-        return subst(list(ti.tree.body))
-    for b in ti.tree.find_all(nodes.Block):
-        over.setdefault(b.name, b)      # an override further down the chain wins
-    binds = [n for n in ti.tree.body if isinstance(n, (nodes.Assign, nodes.AssignBlock, nodes.Import, nodes.FromImport, nodes.Macro))]
-    return binds + flatten_extends(jx, parent, depth - 1, over)
